@@ -1,6 +1,7 @@
 import ConfModel.Driver.Common
 import ConfModel.Model.ReportScript
 import ConfModel.Spec.RunVerdict
+import ConfModel.Model.RunLoop
 namespace ConfModel.Driver.C04
 open Lean ConfModel.Driver ConfModel.Report ConfModel.RunVerdict
 
@@ -26,6 +27,102 @@ def parseStep (i : Nat) (code : String) : Option Step :=
 
 def parseSteps (codes : List String) : Option (List Step) :=
   (codes.zipIdx.map (fun (c, i) => parseStep i c)).mapM id
+
+
+/-! ### op "runloop": the real `Run` with a scripted client process, judged by the rule of the
+property on what the client really answered; the model is `ConfModel.RunLoop.Run` (interface layer:
+one batch per server batch, per case the observation "answered with the reference client's result"
+or "refused") -/
+
+/-- code of the suite case a permutation name belongs to: its last component is `c<i>` -/
+def loopCode (codes : List String) (name : String) : Option String :=
+  match (name.splitOn "/").getLast? with
+  | some base => match (base.drop 1).toString.toNat? with
+    | some i => if base.startsWith "c" then codes[i]? else none
+    | none => none
+  | none => none
+
+def handleRunLoop (inp impl : Json) : Verdict :=
+  if !(isNull (field impl "panic")) then
+    { agree := false, holds := false, why := "panic: " ++ str (field impl "panic") } else
+  if bool (field impl "invalid") then
+    { agree := true, holds := true, nontrivial := false, cls := "invalid-input" } else
+  let codes := strList (field inp "cases")
+  let stop := str (field inp "stop")
+  let answered := strList (field impl "answered")
+  let blind := strList (field impl "blind")
+  -- the order of the cases inside a batch is the library's (a Go map order, different in every
+  -- run); the sends of a batch are sequential and the client answers in arrival order, so inside a
+  -- batch the answered requests precede the others: canonical order
+  let batches := (arr (field impl "batches")).map fun b =>
+    (strList b).filter (fun n => answered.contains n) ++ (strList b).filter (fun n => !answered.contains n)
+  let names := batches.flatten
+  if batches.isEmpty || names.any (fun n => (loopCode codes n).isNone) then
+    bad ("runloop: no batches / unknown permutation name; err: " ++ str (field impl "err")) else
+  let codeOf (n : String) : List Char := ((loopCode codes n).getD "ru").toList
+  let markOfName (n : String) : Mark := ((codeOf n)[1]?.bind parseMark).getD .unmarked
+  let right (n : String) : Bool := (codeOf n)[0]? == some 'r'
+  -- the assignment, by the property's words: a selected case ran iff the client answered it
+  let cases : List Case := names.map fun n =>
+    { name := n
+      kind := if blind.contains n then .clientErr
+              else if answered.contains n then (if right n then .pass else .assertFail) else .noResult
+      mark := markOfName n, feedback := false }
+  let want := specOk cases 0
+  -- a client that has closed its stdout after answering everything still ends cleanly: it exits
+  -- with status 0 when its stdin is closed and the reader sees a plain end of stream
+  let clean := stop == "serve" || stop == "exit0" || stop == "blind0" ||
+    (stop == "closeout" && names.all (fun n => answered.contains n))
+  -- implementation's observation
+  let iOk := bool (field impl "ok")
+  let iTot : Totals := { passed := nat (field impl "passed"), failed := nat (field impl "failed"),
+                         expected := nat (field impl "expected"), notRun := nat (field impl "notRun") }
+  let iFailed := strList (field impl "failedNames")
+  let iInfo := strList (field impl "infoNames")
+  let sum := iTot.passed + iTot.failed + iTot.expected + iTot.notRun
+  let answeredCases := cases.filter (fun c => answered.contains c.name)
+  let unnamed := (specFailedNames answeredCases).filter (fun n => !iFailed.contains n)
+  let wantTot := specTotals cases 0
+  -- model: `RunLoop.Run` on the same batches, the same answers, a clean or unclean end of the client
+  let mk : Report.Marks :=
+    { failing := fun n => markOfName n == .failing, flaky := fun n => markOfName n == .flaky }
+  let script (b : List String) : ServerRunner.Script :=
+    { cases := b.map fun n =>
+        if blind.contains n then .answer .error true
+        else if answered.contains n then .answer (if right n then .pass else .mismatch) true else .refuse
+      isRef := true, useTLS := false, startErr := false, writeErr := false, closeErr := false
+      resp := .ok, dies := none, names := b.map (·.toList), stderr := [] }
+  let world : List RunLoop.Client :=
+    [{ startErr := false, batches := batches.map (fun b => { s := script b, noticed := false }), waitErr := !clean }]
+  let mOk := RunLoop.Run mk world
+  let mRep := RunLoop.runReport mk world
+  let mTot : Totals := match mRep with
+    | some r => { passed := r.succeeded, failed := r.failed, expected := r.expectedFailures, notRun := r.couldNotRun }
+    | none => { passed := 0, failed := 0, expected := 0, notRun := 0 }
+  -- which of the classes "failed" (set-up error: no result) and "could not be run" a case that got
+  -- no answer falls into depends on the race between the sender and the shut-down; their sum does not
+  let agree := iOk == mOk && iTot.passed == mTot.passed && iTot.expected == mTot.expected
+    && iTot.failed + iTot.notRun == mTot.failed + mTot.notRun
+  let why :=
+    if !want && iOk then
+      "verdict: Run returned success although not every selected case ran and met its expectation ("
+        ++ toString ((cases.filter (fun c => !c.meets)).map (·.name)) ++ "); client: " ++ stop
+        ++ " after " ++ toString (int (field inp "k")) ++ " answers"
+    else if want && clean && !iOk then
+      "verdict: Run returned failure although every selected case ran and met its expectation and the client ended cleanly"
+    else if !unnamed.isEmpty then "unnamed: failing cases not named on a FAILED line: " ++ toString unnamed
+    else if sum != names.length then
+      "totals: the printed totals account for " ++ toString sum ++ " of " ++ toString names.length ++ " selected cases"
+    else if iTot.passed != wantTot.passed || iTot.expected != wantTot.expected then
+      "classes: printed passed/expected " ++ toString iTot.passed ++ "/" ++ toString iTot.expected ++
+        " but the answered cases give " ++ toString wantTot.passed ++ "/" ++ toString wantTot.expected
+    else if iFailed.length != iTot.failed || iInfo.length != iTot.expected then
+      "names: " ++ toString iFailed.length ++ " FAILED / " ++ toString iInfo.length ++ " INFO lines for totals " ++ reprStr iTot
+    else ""
+  { agree := agree, holds := why.isEmpty, nontrivial := true,
+    model := Json.mkObj [("ok", mOk), ("passed", mTot.passed), ("expected", mTot.expected), ("failedOrNotRun", mTot.failed + mTot.notRun)],
+    why := why,
+    cls := stop ++ (if want then ":all-answered" else ":not-all") ++ (if iOk then ":success" else ":failure") }
 
 def handle : Handler := fun op inp impl =>
   match op with
@@ -126,6 +223,7 @@ def handle : Handler := fun op inp impl =>
       else ""
     { agree := iOk == mOk, holds := why.isEmpty, nontrivial := true, model := Json.mkObj [("ok", mOk)], why := why,
       cls := client ++ (if want then ":success" else ":failure") }
+  | "runloop" => handleRunLoop inp impl
   | _ => bad ("C04: unknown op " ++ op)
 
 end ConfModel.Driver.C04
